@@ -121,12 +121,14 @@ func runC06(c *core.Ctx, r *core.Reporter) {
 }
 
 // alwaysFresh: sequence functions that Common Lisp defines as always returning a newly allocated sequence.
-var alwaysFresh = []string{"reverse", "copy-list", "copy-seq", "copy-alist", "copy-tree", "subseq", "concatenate", "mapcar", "maplist", "butlast", "remove-duplicates"}
+var alwaysFresh = []string{"reverse", "copy-list", "copy-seq", "copy-alist", "copy-tree", "subseq", "concatenate", "mapcar", "maplist", "butlast", "remove-duplicates",
+	// the property asks for a result independent of the argument also where the language would let it share
+	"remove", "remove-if", "remove-if-not", "substitute", "substitute-if", "substitute-if-not"}
 
 // c06result: the result of an always-fresh function is never the argument object itself.
 func c06result(c *core.Ctx, r *core.Reporter) {
 	const rule = "C06.result"
-	r.Rule(rule, "the functions that always return a newly allocated sequence (reverse, copy-list, copy-seq, copy-alist, copy-tree, subseq, concatenate, mapcar, maplist, butlast, remove-duplicates) never return one of their arguments itself: every returned list derives from an allocation in the activation, not from an element of the argument list (a one-element or empty argument handed back as is shares storage with the caller's list)", 6)
+	r.Rule(rule, "the functions that always return a newly allocated sequence (reverse, copy-list, copy-seq, copy-alist, copy-tree, subseq, concatenate, mapcar, maplist, butlast, remove-duplicates, and the remove and substitute families) never return one of their arguments itself: every returned list derives from an allocation in the activation, not from an element of the argument list (a one-element or empty argument handed back as is shares storage with the caller's list)", 6)
 	an := own.New(c, listSink)
 	for _, name := range alwaysFresh {
 		b := c.ByName("pkg/cl", name)
@@ -204,6 +206,13 @@ func returnsArgList(an *own.Analyzer, fn *ssa.Function) bool {
 			return isArg(x.Tuple, d+1)
 		case *ssa.Call:
 			if g := x.Call.StaticCallee(); g != nil && g.Pkg != nil && core.InModule(g.Pkg.Pkg) {
+				// a worker that can hand one of its own list parameters back as it is (return seq), called with
+				// the argument list in that position
+				for _, pi := range paramsReturnedAsIs(g, 0) {
+					if pi < len(x.Call.Args) && isArg(x.Call.Args[pi], d+1) {
+						return true
+					}
+				}
 				os := an.Origins(x)
 				if _, shared := os.HasShared(); !shared && len(os.ElemParams()) > 0 {
 					for o := range os {
@@ -228,6 +237,80 @@ func returnsArgList(an *own.Analyzer, fn *ssa.Function) bool {
 		}
 	}
 	return false
+}
+
+// paramsReturnedAsIs: indexes of the parameters of g that some return statement of g returns unchanged (through
+// phis, interface conversions, type changes and reslices), following workers it calls statically.
+var paramsReturnedMemo = map[*ssa.Function][]int{}
+
+func paramsReturnedAsIs(g *ssa.Function, depth int) []int {
+	if g == nil || g.Blocks == nil || depth > 3 {
+		return nil
+	}
+	if v, ok := paramsReturnedMemo[g]; ok {
+		return v
+	}
+	paramsReturnedMemo[g] = nil
+	found := map[int]bool{}
+	seen := map[ssa.Value]bool{}
+	var walk func(v ssa.Value, d int)
+	walk = func(v ssa.Value, d int) {
+		if v == nil || seen[v] || d > 8 {
+			return
+		}
+		seen[v] = true
+		switch x := v.(type) {
+		case *ssa.Parameter:
+			for i, p := range g.Params {
+				if p == x && (isObjectSlice(p.Type()) || core.IsNamed(p.Type(), core.SlipPath, "List")) {
+					found[i] = true
+				}
+			}
+		case *ssa.Phi:
+			for _, e := range x.Edges {
+				walk(e, d+1)
+			}
+		case *ssa.MakeInterface:
+			walk(x.X, d+1)
+		case *ssa.ChangeInterface:
+			walk(x.X, d+1)
+		case *ssa.ChangeType:
+			walk(x.X, d+1)
+		case *ssa.Slice:
+			walk(x.X, d+1)
+		case *ssa.UnOp:
+			if al, ok := x.X.(*ssa.Alloc); ok && al.Referrers() != nil {
+				for _, rf := range *al.Referrers() {
+					if st, ok := rf.(*ssa.Store); ok && st.Addr == ssa.Value(al) {
+						walk(st.Val, d+1)
+					}
+				}
+			}
+		case *ssa.Call:
+			if h := x.Call.StaticCallee(); h != nil && h.Pkg != nil && core.InModule(h.Pkg.Pkg) {
+				for _, pi := range paramsReturnedAsIs(h, depth+1) {
+					if pi < len(x.Call.Args) {
+						walk(x.Call.Args[pi], d+1)
+					}
+				}
+			}
+		}
+	}
+	for _, b := range g.Blocks {
+		if ret, ok := b.Instrs[len(b.Instrs)-1].(*ssa.Return); ok {
+			for _, rv := range ret.Results {
+				walk(rv, 0)
+			}
+		}
+	}
+	var out []int
+	for i := range g.Params {
+		if found[i] {
+			out = append(out, i)
+		}
+	}
+	paramsReturnedMemo[g] = out
+	return out
 }
 
 func c06own(c *core.Ctx, r *core.Reporter) {
